@@ -380,7 +380,8 @@ def h_hcb(env, m, canary=False):
 def h_comb(env, m, na, nb, canary=False):
     import math
     from symx import shim
-    from tangelo.toolboxes.qubit_mappings import combinatorial as cmod
+    import importlib
+    cmod = importlib.import_module("tangelo.toolboxes.qubit_mappings.combinatorial")
     const, h, eri = sym_integrals(env, m)
     H = build_fermion_op(fock.molecular_hamiltonian_terms(const, h, eri, m))
     old = shim.ALLOC_OBJECT
@@ -424,14 +425,106 @@ def h_comb(env, m, na, nb, canary=False):
         env.check_vec_eq(leak, [0] * len(leak), f"combinatorial: padding index {v} does not couple to the represented space")
 
 
+def h_comb_precision(env, m, na, nb, seed=0):
+    """ordinary double-precision integrals (not representable in single precision) through the real combinatorial():
+    matrix elements of the returned operator vs Slater-Condon values computed in exact rational arithmetic, tolerance 1e-8"""
+    import importlib
+    cmod = importlib.import_module("tangelo.toolboxes.qubit_mappings.combinatorial")
+    rnd = random.Random(1000 + seed)
+
+    class Fixed:
+        symbolic = False
+
+        def real(self, name, lo, hi):
+            return F(rnd.randint(-19, 19), 10)
+    const, h, eri = sym_integrals(Fixed(), m)
+    terms = fock.molecular_hamiltonian_terms(const, h, eri, m)
+    H = build_fermion_op({t: float(c) for t, c in terms.items() if c != 0})
+    q = cmod.combinatorial(H, m, (na, nb)).terms
+    ba, bb = cmod.basis(m, na), cmod.basis(m, nb)
+    index = {}
+    for sa, ia in ba.items():
+        for sb, ib in bb.items():
+            f = [0] * (2 * m)
+            for i in sa:
+                f[2 * i] = 1
+            for i in sb:
+                f[2 * i + 1] = 1
+            index[tuple(f)] = ia * len(bb) + ib
+    nq = max([qq for w in q for qq, _ in w], default=0) + 1
+    worst, where = 0.0, ""
+    for f, v in index.items():
+        b = tuple((v >> j) & 1 for j in range(nq))
+        got = PB.pauli_apply(q, b)
+        row = fock.slater_condon_row(f, const, h, eri)
+        for g, val in row.items():
+            if g in index:
+                bg = tuple((index[g] >> j) & 1 for j in range(nq))
+                d = abs(complex(got.get(bg, 0)) - float(val)) / max(1.0, abs(float(val)))
+                if d > worst:
+                    worst, where = d, f"<{g}|H|{f}>: got {complex(got.get(bg, 0))!r}, exact {float(val)!r} (= {val})"
+    env.check_true(worst <= 1e-8, f"combinatorial m={m} ({na},{nb}): matrix elements agree with exact values to 1e-8 for double-precision input",
+                   detail=f"largest relative deviation {worst:.3g}: {where}")
+
+
 def shapes(tier, seed):
     rnd = random.Random(seed)
+    quick = tier == "quick"
     out = []
-    ns = (2, 3, 4, 5, 6, 8) if tier == "quick" else (2, 3, 4, 5, 6, 7, 8, 10, 12)
+    # (a)+(b)
+    ns = (2, 3, 4, 5, 6, 8) if quick else (2, 3, 4, 5, 6, 7, 8, 10, 12)
     for mapping in ("JW", "BK", "JKMN"):
         for n in ns:
             for utd in ((False, True) if n % 2 == 0 else (False,)):
                 out.append(Shape(f"ladder/{mapping}/n{n}/utd{int(utd)}", h_ladder, dict(mapping=mapping, n=n, utd=utd), modules=MODS))
     out.append(Shape("canary/ladder/BK/sign", h_ladder, dict(mapping="BK", n=4, utd=True, canary=True), modules=MODS, canary=True))
     out.append(Shape("canary/ladder/JKMN/occ", h_ladder, dict(mapping="JKMN", n=4, utd=False, canary=True), modules=MODS, canary=True))
+    # (c)
+    for mapping in ("JW", "BK", "JKMN"):
+        for utd in (False, True):
+            singles = all_monomials(range(4), 1)
+            out.append(Shape(f"linear/{mapping}/n4/utd{int(utd)}/singles", h_linear,
+                             dict(mapping=mapping, n=4, utd=utd, monos_a=singles, monos_b=singles), modules=MODS))
+            pool = all_monomials(range(4), 2)
+            for b in range(1 if quick else 6):
+                out.append(Shape(f"linear/{mapping}/n4/utd{int(utd)}/mixed{b}", h_linear,
+                                 dict(mapping=mapping, n=4, utd=utd, monos_a=rnd.sample(pool, 10), monos_b=rnd.sample(pool, 5)), modules=MODS))
+            low = all_monomials(range(3), 2)          # never touches the highest index; n_spinorbitals passed explicitly
+            out.append(Shape(f"linear/{mapping}/n4/utd{int(utd)}/low", h_linear,
+                             dict(mapping=mapping, n=4, utd=utd, monos_a=rnd.sample(low, 8), monos_b=rnd.sample(low, 4)), modules=MODS))
+            pool6 = all_monomials(range(5), 2) + conserving_monomials(range(6), 2)
+            for b in range(1 if quick else 4):
+                out.append(Shape(f"linear/{mapping}/n6/utd{int(utd)}/mixed{b}", h_linear,
+                                 dict(mapping=mapping, n=6, utd=utd, monos_a=rnd.sample(pool6, 8), monos_b=rnd.sample(pool6, 4)), modules=MODS))
+    for (n, ne, sp) in ((4, 2, 0), (4, 3, 1), (4, 1, -1)) + (() if quick else ((6, 2, 0), (6, 3, -1), (6, 4, 2))):
+        for utd in (False, True):
+            pool = conserving_monomials(range(n), 1) + conserving_monomials(range(n - 1), 2)
+            out.append(Shape(f"linear/scBK/n{n}/N{ne}s{sp}/utd{int(utd)}", h_linear,
+                             dict(mapping="scbk", n=n, utd=utd, monos_a=rnd.sample(pool, 8), monos_b=rnd.sample(pool, 4), n_electrons=ne, spin=sp),
+                             modules=MODS))
+    out.append(Shape("canary/linear/BK", h_linear, dict(mapping="BK", n=4, utd=True, monos_a=all_monomials(range(4), 1)[:3],
+                                                        monos_b=all_monomials(range(4), 1)[3:5], canary=True), modules=MODS, canary=True))
+    # (d)
+    for n in ((4, 6) if quick else (4, 6, 8, 10)):
+        one, two = conserving_monomials(range(n), 1), conserving_monomials(range(n), 2)
+        for (ne, sp) in admissible(n):
+            for utd in (False, True):
+                monos = one + (two if n == 4 else rnd.sample(two, 24 if quick else 48))
+                out.append(Shape(f"scbk/n{n}/N{ne}s{sp}/utd{int(utd)}", h_scbk, dict(n=n, n_electrons=ne, spin=sp, utd=utd, monos=monos), modules=MODS))
+    out.append(Shape("canary/scbk/sector", h_scbk, dict(n=4, n_electrons=3, spin=-1, utd=True, monos=conserving_monomials(range(4), 1), canary=True),
+                     modules=MODS, canary=True))
+    # (e)
+    for m in ((2, 3) if quick else (2, 3, 4)):
+        out.append(Shape(f"hcb/m{m}", h_hcb, dict(m=m), modules=MODS))
+    out.append(Shape("canary/hcb", h_hcb, dict(m=2, canary=True), modules=MODS, canary=True))
+    # (f)  every (n_alpha, n_beta) with at least two configurations
+    import math
+    for m in ((2, 3) if quick else (2, 3, 4)):
+        for na in range(m + 1):
+            for nb in range(m + 1):
+                if math.comb(m, na) * math.comb(m, nb) >= 2:
+                    out.append(Shape(f"combinatorial/m{m}/a{na}b{nb}", h_comb, dict(m=m, na=na, nb=nb), modules=MODS))
+    out.append(Shape("canary/combinatorial", h_comb, dict(m=2, na=1, nb=1, canary=True), modules=MODS, canary=True))
+    for (m, na, nb) in ((2, 1, 1), (3, 2, 1)):
+        out.append(Shape(f"precision/combinatorial/m{m}/a{na}b{nb}", h_comb_precision, dict(m=m, na=na, nb=nb), modules=MODS))
     return out
